@@ -274,7 +274,9 @@ class MrpProtocol(MessageDispatcher[int, protobuf.ProtocolMessage]):
             async with async_timeout.timeout(timeout):
                 await semaphore.acquire()
 
-        except Exception:
+        except BaseException:
+            # Also when the caller gives up (is cancelled): a message arriving later
+            # answers no outstanding request and shall be dispatched to listeners
             del self._outstanding[identifier]
             raise
 
